@@ -364,3 +364,29 @@ func H_C15_concurrent_async_calls() {
 	verifAssert(hSameResult(want, r1) && hSameResult(want, r2), "concurrent non-mutating operations return the same results as sequentially")
 	verifReach("end")
 }
+
+// MapAsync hands the function the elements themselves (the identical nested containers), as Map does
+func H_C15_map_async_passes_elements() {
+	inner := NewList(nondetInt())
+	io := NewObject("q", 1)
+	l := NewList(inner, io)
+	o := NewObject("a", inner, "b", io)
+	okL, okO := true, true
+	var mu sync.Mutex
+	verifSchedAll(0)
+	rl := l.MapAsync(func(i int, v any) any {
+		mu.Lock()
+		okL = okL && ((i == 0 && v == any(inner)) || (i == 1 && v == any(io)))
+		mu.Unlock()
+		return v
+	})
+	ro := o.MapAsync(func(k string, v any) any {
+		mu.Lock()
+		okO = okO && ((k == "a" && v == any(inner)) || (k == "b" && v == any(io)))
+		mu.Unlock()
+		return v
+	})
+	verifAssert(okL && okO, "MapAsync passes each index/key with the value Get returns (the identical nested container)")
+	verifAssert(rl.Get(0) == any(inner) && rl.Get(1) == any(io) && ro.Get("a") == any(inner) && ro.Get("b") == any(io), "MapAsync returns exactly what Map returns for the same pure function")
+	verifReach("end")
+}
